@@ -688,6 +688,17 @@ let run_case (t : string list) : string =
       let cfg = { Dialer.own = g "own"; backoff_step = g "step"; max_backoff = g "maxb"; max_outstanding = g "maxout" } in
       let period = g "P" in
       let ticks = int_of_string (Stdlib.List.assoc "ticks" kvs) in
+      (* ext=<tick>:<n>,... : connections being established for other reasons (explicit connects, inbound
+         handshakes) at that tick: pending_connections.len() as the check sees it *)
+      let ext =
+        match Stdlib.List.assoc_opt "ext" kvs with
+        | None | Some "" | Some "-" -> []
+        | Some v ->
+            Stdlib.List.map
+              (fun e -> match Stdlib.String.split_on_char ':' e with
+                 | [ t; n ] -> (int_of_string t, int_of_string n) | _ -> failwith "bad ext")
+              (Stdlib.String.split_on_char ',' v)
+      in
       let known =
         Stdlib.List.map
           (fun e ->
@@ -740,7 +751,8 @@ let run_case (t : string list) : string =
           (fun p (a, ts) -> if a = p && up_at a ts && not (went_down_between a ts now) then Hashtbl.replace connected p (a, ts))
           lastdial;
         let active = Hashtbl.fold (fun p _ acc -> n_of_int p :: acc) connected [] in
-        let (st', dials), elig = Dialer.check cfg (n_of_int now) results known active N0 !st in
+        let outstanding = n_of_int (match Stdlib.List.assoc_opt i ext with Some n -> n | None -> 0) in
+        let (st', dials), elig = Dialer.check cfg (n_of_int now) results known active outstanding !st in
         st := st';
         Hashtbl.reset lastdial;
         Stdlib.List.iter (fun (p, a) -> Hashtbl.replace lastdial (int_of_n p) (int_of_n a, now)) dials;
